@@ -1,11 +1,11 @@
 package sim
 
 import (
-	"sync"
 	"errors"
 	"fmt"
 	"io"
 	"sort"
+	"sync"
 
 	"pgregory.net/rapid"
 )
@@ -47,6 +47,7 @@ type SimReader struct {
 
 	// set by Own: the reader knows the goroutine of the call it is handed to (foreign.go)
 	owner  int64
+	ownerG GHandle
 	opDone chan struct{}
 	mu     sync.Mutex
 }
@@ -248,6 +249,7 @@ type SimWriter struct {
 
 	// set by Own (foreign.go)
 	owner  int64
+	ownerG GHandle
 	opDone chan struct{}
 	mu     sync.Mutex
 }
